@@ -11,7 +11,7 @@ from ..pyfacts import dotted, calls_in
 from .c10 import is_wrapped
 
 META = {
-    "explanation": "Necessary conditions of idempotence and determinism, decided on the vocabulary: (N1) the abstract round trip of C01 is applied twice - for every (type, keyword, value class, quote) the value read back from the printed text is printed again and the second template must be identical to the first (enum words are upper-cased once, numbers, strings, bindings, lists unchanged); (N2) the expression normal form is a fixed point: every builder result that is enclosed by its own parentheses is returned unchanged by expression(), and NOT / arithmetic forms re-wrapped once give the same string when re-read; (N3) escape_quotes un-escapes before it re-escapes (def-use order) and is the identity on a quoted string without interior quotes; (N4) determinism: no iteration over sets, no hash/id/random/time/environment reads on the load and print call graphs.",
+    "explanation": "Necessary conditions of idempotence and determinism, decided on the vocabulary: (N1) the abstract round trip of C01 is applied twice - for every (type, keyword, value class, quote) the value read back from the printed text is printed again and the second template must be identical to the first (enum words are upper-cased once, numbers, strings, bindings, lists unchanged); (N2) the expression normal form is a fixed point: every builder result that is enclosed by its own parentheses is returned unchanged by expression(), and NOT / arithmetic forms re-wrapped once give the same string when re-read; (N3) escape_quotes, evaluated on symbolic quoted strings, is the identity without interior quotes, escapes an interior quote exactly once and is idempotent on its own result; (N4) determinism: no iteration over sets, no hash/id/random/time/environment reads on the load and print call graphs.",
     "level_text": "Idempotence is decided per cell of the finite (type x keyword x value class x quote) table and per expression builder - every document is a composition of these cells. Byte identity of whole documents under all option sets is not decided (needs the documents); these are the conditions whose violation breaks it.",
     "level_note": "Trusted: Python string and dict semantics are deterministic; insertion-ordered dicts (C17). Strings containing quote characters or backslashes are covered only by the ordering rule N3.",
     "technique": "double application of the abstract print/parse round trip + fixed-point check of expression builders (PAI) + def-use ordering rule + call-graph scan for nondeterminism sources",
